@@ -227,7 +227,9 @@ class Marginal(Generic[R], SampleDistribution):
         bwd_request = ~self.selection
         weight = tr.project(sub_key, bwd_request)
         if self.algorithm is None:
-            return weight, latent_choices
+            # `weight` is the density of the unselected choices under the internal proposal,
+            # so the density estimate of the selected ones is log p(selected, rest) - log q(rest).
+            return tr.get_score() - weight, latent_choices
         else:
             target = Target(self.gen_fn, args, latent_choices)
             other_choices = choices.filter(~self.selection)
